@@ -52,7 +52,7 @@ def run(tier, v):
     states, trans, detail = al.design_level(
         ["AmmoFormats_exh%s.cfg" % sfx, "AmmoFormats_layout%s.cfg" % sfx],
         ["AmmoFormats_neg_noreset.cfg", "AmmoFormats_neg_firstwins.cfg", "AmmoFormats_neg_eofline.cfg"],
-        workers=16 if thorough else 8, heap="12g" if thorough else "4g")
+        workers=16 if thorough else 8, heap="12g" if thorough else "4g", coverage=thorough)
     d = vlib.scratch()
     files = al.export_cases("AmmoFormats_export_C07%s.cfg" % sfx, d, "c07")
     b = vlib.harness_build()
